@@ -24,6 +24,7 @@ META = {
                      "C02 (cbor_bstr yields the stored bytes) and C11 R-3"],
 }
 META["decides"] += " (As built: R-1 reads the strings off element 0 of the structure function's own array; R-3/R-4 are decided per PUBLIC entry point with all crate-local callees expanded in place - it does not matter how the work is split into private helpers; public functions outside the tables that also build a structure are noted.)"
+META["decides"] += ' R-2 also: map form of ProtectedHeader, un-overridden byte-level API; R-3 also: derived Clone, arguments not edited in place.'
 
 
 def check(ctx):
